@@ -13,8 +13,8 @@ FAIL = {
     'C06': ('sem', 'no-result'),
     'C07': ('clause', 'no-result', 'rows', 'truevars'),
     'C20': ('clause', 'shape', 'no-result', 'rows'),
-    'C10': ('header', 'rows', 'truevars', 'no-result', 'accept'),
-    'C11': ('header', 'rows', 'order', 'roundtrip', 'accept'),
+    'C10': ('header', 'rows', 'truevars', 'no-result', 'accept', 'panic'),
+    'C11': ('header', 'rows', 'order', 'roundtrip', 'accept', 'byname', 'panic', 'no-result'),
     'C12': ('panic',),
     'C19': ('member', 'panic'),
     'C13': ('history', 'handle', 'sharing', 'result', 'no-result'),
@@ -41,6 +41,7 @@ TEXT_RULE = {
     'tok': 'exhaustive: all strings of length <=4 (thorough <=5) over a 22-character alphabet with one character per alternation/boundary of the tokenizer regex (letters, digit, quote, underscore, space, double quote, braces, < = > - ! & | ( [ , #, a non-ASCII letter, a non-ASCII digit, NUL); every keyword/symbol spelling alone and in all adjacent and spaced pairs; plus seeded token soups, spelling soups, random Unicode, mutated formulas, a third of them under a random ordering with sparse distinct ids',
     'parse': 'exhaustive: every token sequence of length <=3 over the full 36-token alphabet and of length 4 (thorough: 5) over a 20-token reduced alphabet (thorough: length 4 over the full alphabet), rendered to text; plus seeded grammar-directed random formulas (all constructs, all spellings, random whitespace/comments), half of them with 1-3 token-level mutations (drop/insert/swap/replace)',
     'eval': 'the same exhaustive token sequences evaluated (result diagram, vars, free_vars); the counting-constant boundary grid; plus seeded random formulas <= depth 4 over <=6 names with shadowing, binder-only names, monotone-by-construction nested/mixed fixed points, counting over compound operands, constants up to 2^64-1, a third of them under an API ordering with sparse distinct ids incl. unused names',
+    'evalord': 'API orderings with gaps: 8 formulas x every injective assignment of ids 0..5 to every subset of <=3 of the names a,b,c,d (685 orderings), incl. formulas with up to five unlisted variables; result, vars, free_vars, names compared, and the answer is compared BY NAME with the default-order answer',
     'evalc': 'counting grid: 5 comparisons x 10 constants (0..4, 2^63-2 .. 2^63, 2^64-2, 2^64-1) x 6 operand lists, 5x5 list-vs-list grid; plus seeded random formulas containing a counting comparison',
     'evalfp': '23 hand-picked fixed-point formulas (identity, constants, divergent negation, chains through quantifiers, nested/mixed lfp-gfp, shadowing by quantifier and by inner fixed point, counting, ite); plus seeded random formulas containing lfp/gfp over 3 names, 3/4 monotone by construction, 1/4 arbitrary',
 }
@@ -71,7 +72,7 @@ PROPS = {
     'C08': dict(suites=[text(['tok', 'parse'])]),
     'C09': dict(suites=[text(['eval'])]),
     'C10': dict(suites=[cli(['grid', 'order', 'random'])]),
-    'C11': dict(suites=[cli(['order', 'random'])]),
+    'C11': dict(suites=[cli(['order', 'random']), text(['evalord'])]),
     'C12': dict(suites=[cli(['robustlib', 'robustbin', 'grid'])]),
     'C19': dict(suites=[dict(suite='set', parts=[], profile='release', exhaustive=True,
                              rule='complete BFS over all 256 reachable pairs of reference states of two 2-bit sets sharing an environment x all 32 next operations (insert, contains per element; union, intersect, complement for all four operand pairs incl. the same set twice; empty; universe), each followed by all 8 membership queries twice; plus seeded random histories of <=25 operations over 1..5 bits ending in a full membership sweep; answers and both final diagrams are compared')]),
